@@ -26,7 +26,7 @@ from vf import Infra
 
 DER_ALL = ["strict", "strict_ht", "pad_r", "pad_s", "neg", "trail", "longlen", "seqlen", "badtag", "badinttag", "trunc", "zerolen", "empty"]
 INVS = ["TypeOK", "AcceptIffNoRule", "RangeExact", "KeyRuleUniform", "InvalidKeysRefused", "EitherOnlyLax", "SchnorrExact",
-        "TweakExact", "RecoverExact", "TamperRefused"]
+        "TweakExact", "RecoverExact", "WrapAccepted", "TamperRefused"]
 BUGS = [("le_n", "RecoverExact"), ("hybrid", "InvalidKeysRefused"), ("oddR", "SchnorrExact"), ("parity", "TweakExact"),
         ("tamper", "TamperRefused")]
 
@@ -198,7 +198,7 @@ def run(ctx):
                 "exhaustive": not quick})
     ctx.assumptions += [
         "numeric values come from harness/ref (math/big, stdlib hashes), self-tested on every run; the specification supplies classes and verdicts",
-        "classes that would need a discrete logarithm (a valid BIP 340 signature with s+n < 2^256, an ECDSA r whose point has x >= n, a prescribed r or s for a prescribed public key) are enumerated by TLC but not concretised",
+        "classes that would need a discrete logarithm (a valid BIP 340 signature with s+n < 2^256, a prescribed r or s for a prescribed public key) are enumerated by TLC but not concretised",
         "a valid signature in a readable non-canonical DER form is not judged (consensus reads it laxly, BIP 66 refuses it at the script layer): the code's answers are recorded in not_judged_lax_encodings",
         "x-only keys and BIP 340 signatures are offered with their exact lengths (32 / 64 bytes) only",
     ]
